@@ -5,7 +5,7 @@ sys.path.insert(0, os.path.dirname(os.path.abspath(__file__)))
 from registry import PROPS
 VERIF = os.path.dirname(os.path.dirname(os.path.abspath(__file__)))
 ALL = [f"C{i:02d}" for i in range(1, 21)]
-REPO_HOOK_COMMITS = ["ed04eef"]
+REPO_HOOK_COMMITS = ["ed04eef", "bf97854"]
 checks = []
 for pid in ALL:
     if pid not in PROPS:
